@@ -558,6 +558,7 @@ pub fn run_c09(ctx: &Ctx) -> Report {
     rep.expect_classes(&[
         "op:init:ok", "op:init:err", "op:push:ok", "op:push:err", "op:remove:ok", "op:remove:err", "op:set:ok", "op:set:err",
         "op:sort:ok", "history:>=2-successful-ops", "boundary:u16:ok", "boundary:u16:err", "size_of:ok", "size_of:err",
+        "sort:stable-with-ties", "boundary:capacity-above-prefix-max",
     ]);
     let mut rng = Rng::new(ctx.seed.wrapping_mul(131).wrapping_add(9));
     boundary_u16(&mut rep, "C09");
@@ -637,7 +638,7 @@ fn stored_candidates(cap: usize, li: usize, szt: usize) -> Vec<u128> {
 pub fn run_c10(ctx: &Ctx) -> Report {
     let mut rep = Report::new("C10");
     rep.corr_module = "ListView".into();
-    rep.expect_classes(&["open:ok", "open:err", "open:known-panic", "open:misaligned", "open:not-multiple", "open:too-short", "open:len>cap"]);
+    rep.expect_classes(&["open:ok", "open:err", "open:known-panic", "open:misaligned", "open:not-multiple", "open:too-short", "open:len>cap", "boundary:capacity-above-prefix-max"]);
     let mut rng = Rng::new(ctx.seed.wrapping_mul(137).wrapping_add(10));
     let mut count = 0usize;
     boundary_capacity(&mut rep);
